@@ -10,6 +10,7 @@ import (
 	connect "github.com/bufbuild/connect-go"
 
 	"verifharness/bsched"
+	"verifharness/ev"
 )
 
 // seq is a logical clock shared by drivers and the environment; it orders
@@ -33,6 +34,7 @@ func tick() int64 { return seq.Add(1) }
 // process ends after writing its result.
 func runSched(t *testing.T, prefix []int, expect []bsched.Point, maxSteps int, body func(s *bsched.Sched) any, onStuck ...func(x *bsched.Exec)) *bsched.Exec {
 	x := &bsched.Exec{}
+	ev.Tick()
 	synctest.Test(t, func(*testing.T) {
 		s := bsched.New(prefix, expect)
 		if maxSteps > 0 {
